@@ -269,7 +269,24 @@ let reached (p : parsed) (id : int) (name, vars) : bool =
   | Done r -> List.exists (fun e -> e.e_kind = ENotField && e.e_loc = LNode (nat_of_int id)) r.r_errs
   | OutOfFuel -> false
 
+(* universal part: no resolver is ever invoked for a field the node's object type does not define *)
+let undefined_field_call (p : parsed) (observed : S.t) : bool =
+  let resps = (match observed with S.L l -> l | _ -> []) in
+  List.exists (function
+      | S.L [S.A "resp"; _; _; S.L calls] ->
+        List.exists (function
+            | S.L [S.A "c"; n; fn; _] ->
+              (match List.assoc_opt (S.int n) (List.map (fun (k, nd) -> (int_of_nat k, nd)) p.graph) with
+               | Some nd ->
+                 (match Model.get_field_def p.schema nd.n_gotype (nat_of_int (S.int fn)) with
+                  | None -> true
+                  | Some _ -> false)
+               | None -> false)
+            | _ -> false) calls
+      | _ -> false) resps
+
 let oracle_c10 (p : parsed) (observed : S.t) : string =
+  if undefined_field_call p observed then "fails:resolver-invoked-for-a-field-its-type-does-not-define" else
   match p.defect with
   | None -> "holds"
   | Some (kind, id, x) ->
@@ -294,10 +311,10 @@ let oracle_c10 (p : parsed) (observed : S.t) : string =
            else "holds"
          | "undeclared-arg" ->
            if call_with_arg x then "fails:resolver-invoked-with-undeclared-argument"
-           else if Lazy.force is_reached && not (err_kind "badarg") then "fails:no-error-naming-the-undeclared-argument"
+           else if Lazy.force is_reached && not (err_kind "badarg") && not (err_at_node "notfield") then "fails:no-error-naming-the-undeclared-argument"
            else "holds"
          | "missing-required" ->
-           if Lazy.force is_reached && not (err_at_node "missingarg") then "fails:no-error-for-the-missing-required-argument"
+           if Lazy.force is_reached && not (err_at_node "missingarg") && not (err_at_node "notfield") then "fails:no-error-for-the-missing-required-argument"
            else "holds"
          | "undefined-fragment-cond" -> "fails:fragment-on-undefined-type-accepted"
          | _ -> "fails:defective-document-not-rejected")
